@@ -1,5 +1,8 @@
-(* C12 — wire format, model runner and the trace oracle prop_ok. Definitions only.
+(* C12 — wire formats, model runners and the trace oracles. Definitions only.
 
+   Two case formats, told apart by the first number.
+
+   (1) quiescence stream (first number = cap_s <= 4096; only endpoint A sends):
    case   = cap_s cap_a cap_n max_out max_in, nactions, actions, nperiods, per period: nhints, hints
    action = 0 tag len | 1 tag len | 2 w r | 3 | 4 | 5 | 6 | 7 | 8
             [SendSync, SendAsync, Gate, UserRecv, PollA, CloseA, CloseB, Kill, Reopen]
@@ -8,13 +11,28 @@
             UserRecv: 0 | 1 k | 2 | 3 per mode tag len
             PollA: n, then n times [1 k | 2]
    dump   = a_alive b_alive sync_free async_free waiting async_ok async_err carrier notif_free
-            force_closes notify_yes bad_hints *)
+            force_closes notify_yes bad_hints
+
+   (2) scheduler stream (first number = 9001; both endpoints send; x = 1 for A, 0 for B):
+   case   = 9001, per endpoint (A then B): c_s c_a c_n c_c c_max, nsteps, steps,
+            nconnections, per Connection in creation order: nhints, hints
+   step   = 0 x tag len | 1 x id tag len | 2 x id | 3 x id | 4 x budget | 5 x budget | 6 x | 7 x | 8 x
+            | 9 x w r | 10 | 11 x
+            [Sync, AsyncStart, AsyncPoll, AsyncDrop, Conn, Handle, Open, Close, Cmd, Gate, Kill, CmdFail]
+            budget of a Conn step: 0..128, or 1000000 = polled under tokio::task::unconstrained
+   trace  = 2, then per step: result, dump
+   result = code, or for Handle: 0 | 1 k | 2 | 3 from per mode tag len
+   dump   = aliveA aliveB sfreeA afreeA sfreeB afreeB nfreeA nfreeB carrierAB carrierBA cmdsA cmdsB
+            notify_yes bad_hints *)
 From Coq Require Import List NArith Bool.
 From V.common Require Import Wire.
 From V.C12 Require Import Model.
 Import ListNotations.
 Open Scope N_scope.
 
+Definition SCHED_MARK : N := 9001.
+
+(* ================================================================== quiescence stream *)
 Definition p_action : parser action :=
   let* tag := pN in
   match tag with
@@ -30,63 +48,62 @@ Definition p_action : parser action :=
   | _ => pfail
   end.
 
+(* the handle of A has 64 slots in both of its channels, the sink of B one slot per queue *)
 Definition p_cfg : parser cfg :=
   let* a := pN in let* b := pN in let* c := pN in let* d := pN in let* e := pN in
-  pret (mkCfg a b c d e).
+  pret (mkCfg (mkEC a b 64 64 d) (mkEC 1 1 c 64 e)).
+
+Definition wf_size (t l : N) : bool := (4 <=? l) && (l <=? 4194304) && (t <? 65536).
 
 Definition wf_action (x : action) : bool :=
   match x with
-  | ASendSync t l | ASendAsync t l => (4 <=? l) && (l <=? 4194304) && (t <? 65536)
+  | ASendSync t l | ASendAsync t l => wf_size t l
   | _ => true
   end.
 
-(* channel capacities must be positive (tokio panics on 0); payloads carry a 4-byte header *)
-Definition wf_case (c : cfg) (xs : list action) : bool :=
-  (1 <=? cap_s c) && (1 <=? cap_a c) && (1 <=? cap_n c) &&
-  (cap_s c <=? 4096) && (cap_a c <=? 4096) && (cap_n c <=? 4096) && forallb wf_action xs.
+Definition wf_cap (v : N) : bool := (1 <=? v) && (v <=? 4096).
+Definition wf_ecfg (e : ecfg) : bool := wf_cap (c_s e) && wf_cap (c_a e) && wf_cap (c_n e) && wf_cap (c_c e).
 
 Definition decode_case (l : list N) : option (cfg * list action * list (list bool)) :=
   match pall (let* c := p_cfg in let* xs := plist p_action in let* hs := plist (plist pBool) in
               pret (c, xs, hs)) l with
-  | Some (c, xs, hs) => if wf_case c xs then Some (c, xs, hs) else None
+  | Some (c, xs, hs) =>
+      if wf_ecfg (cfA c) && wf_ecfg (cfB c) && forallb wf_action xs then Some (c, xs, hs) else None
   | None => None
   end.
 
-(* ---- encoders ---- *)
 Definition enc_hev (e : hev) : list N := match e with HOpened k => [1; k] | HClosed _ => [2] end.
-Definition enc_res (r : res) : list N :=
+Definition enc_ares (r : ares) : list N :=
   match r with
-  | RCode x => [x]
-  | RUser UPending => [0]
-  | RUser (UOpened k) => [1; k]
-  | RUser UClosed => [2]
-  | RUser (UNotif n) => [3; n_per n; b2n (n_sync n); n_tag n; n_len n]
-  | REvents l => len l :: flat_map enc_hev l
+  | ACode x => [x]
+  | AUser UPending => [0]
+  | AUser (UOpened k) => [1; k]
+  | AUser UClosed => [2]
+  | AUser (UNotif n) => [3; n_per n; b2n (n_sync n); n_tag n; n_len n]
+  | AEvents l => len l :: flat_map enc_hev l
   end.
 
-Definition dump (c : cfg) (s : st) : list N :=
-  let a := sa s in let b := sb s in let g := sg s in
-  [ b2n (a_alive a); b2n (b_alive b);
-    if a_alive a then cap_s c - len (syncq a) else 0;
-    if a_alive a then cap_a c - len (asyncq a) else 0;
-    len (waiters a); async_ok g; async_err g;
-    if b_alive b then len (carrier (sl s)) else 0;
-    cap_n c - len (notifq b) - b2n (reserved b);
-    len (fclog g); nyes g; bad g ].
+Definition sfree (c : cfg) (s : st) (x : bool) : N :=
+  let cn := ec (gep s x) in if e_alive cn then c_s (ecf c x) - len (e_sq cn) else 0.
+Definition afree_d (c : cfg) (s : st) (x : bool) : N :=
+  let e := gep s x in if e_alive (ec e) then afree (ecf c x) (ec e) (e_ws (eh e)) else 0.
+Definition nfree (c : cfg) (s : st) (x : bool) : N :=
+  let e := gep s x in c_n (ecf c x) - len (e_nq (eh e)) - b2n (e_res (ec e)).
 
-Fixpoint run_trace (c : cfg) (s : st) (xs : list action) : list N :=
+Definition adump (c : cfg) (s : st) : list N :=
+  let a := gep s true in let b := gep s false in
+  [ b2n (e_alive (ec a)); b2n (e_alive (ec b)); sfree c s true; afree_d c s true;
+    len (e_ws (eh a)); e_aok (eg a); e_aerr (eg a);
+    if e_alive (ec b) then len (carrier (lAB s)) else 0;
+    nfree c s false; len (e_fclog (eg a)); nyes s; bad s ].
+
+Fixpoint arun_trace (c : cfg) (i : N) (s : st) (xs : list action) : list N :=
   match xs with
   | [] => []
-  | x :: t => let '(s1, r) := step c s x in enc_res r ++ dump c s1 ++ run_trace c s1 t
+  | x :: t => let '(s1, r) := astep c i s x in enc_ares r ++ adump c s1 ++ arun_trace c (i + 1) s1 t
   end.
 
-Definition run_case (l : list N) : list N :=
-  match decode_case l with
-  | Some (c, xs, hs) => 1 :: run_trace c (init hs) xs
-  | None => [0]
-  end.
-
-(* ---- decoding a trace (the oracle runs on the implementation's output) ---- *)
+(* ---- decoding a quiescence trace ---- *)
 Record obs_dump := mkD {
   d_a : bool; d_b : bool; d_sfree : N; d_afree : N; d_wait : N; d_ok : N; d_err : N;
   d_car : N; d_nfree : N; d_fc : N; d_yes : N; d_bad : N
@@ -100,31 +117,32 @@ Definition p_hev : parser hev :=
   let* t := pN in
   match t with 1 => let* k := pN in pret (HOpened k) | 2 => pret (HClosed 0) | _ => pfail end.
 
-Definition p_res (x : action) : parser res :=
+Definition p_ares (x : action) : parser ares :=
   match x with
   | AUserRecv =>
       let* t := pN in
       match t with
-      | 0 => pret (RUser UPending)
-      | 1 => let* k := pN in pret (RUser (UOpened k))
-      | 2 => pret (RUser UClosed)
+      | 0 => pret (AUser UPending)
+      | 1 => let* k := pN in pret (AUser (UOpened k))
+      | 2 => pret (AUser UClosed)
       | 3 => let* p := pN in let* m := pBool in let* tg := pN in let* l := pN in
-             pret (RUser (UNotif (mkN p m tg l)))
+             pret (AUser (UNotif (mkN true p m tg l)))
       | _ => pfail
       end
-  | APollA => let* l := plist p_hev in pret (REvents l)
-  | _ => let* x := pN in pret (RCode x)
+  | APollA => let* l := plist p_hev in pret (AEvents l)
+  | _ => let* x := pN in pret (ACode x)
   end.
 
-Fixpoint p_blocks (xs : list action) : parser (list (res * obs_dump)) :=
+Fixpoint p_blocks (xs : list action) : parser (list (ares * obs_dump)) :=
   match xs with
   | [] => pret []
-  | x :: t => let* r := p_res x in let* d := p_dump in let* rest := p_blocks t in pret ((r, d) :: rest)
+  | x :: t => let* r := p_ares x in let* d := p_dump in let* rest := p_blocks t in pret ((r, d) :: rest)
   end.
 
-(* ---- the oracle: the property judged on an observed trace ---- *)
+(* ---- shared pieces of the oracles ---- *)
 Definition notif_eqb (a b : notif) : bool :=
-  (n_per a =? n_per b) && Bool.eqb (n_sync a) (n_sync b) && (n_tag a =? n_tag b) && (n_len a =? n_len b).
+  Bool.eqb (n_from a) (n_from b) && (n_per a =? n_per b) && Bool.eqb (n_sync a) (n_sync b) &&
+  (n_tag a =? n_tag b) && (n_len a =? n_len b).
 
 Fixpoint prefix_b (x y : list notif) : bool :=
   match x, y with
@@ -133,17 +151,19 @@ Fixpoint prefix_b (x y : list notif) : bool :=
   | _ :: _, [] => false
   end.
 
-(* what the user of the sending side can know: the sink it holds, what it sent and the results *)
-Record ost := mkO {
-  o_sink : option N;          (* period of the sink held by handle A *)
-  o_acc : list notif;         (* notifications whose send returned Ok *)
-  o_issued : list notif;      (* async sends whose future was created, FIFO *)
-  o_done : N;                 (* async futures completed so far (ok + err) *)
-  o_del : list notif;         (* delivered to user B *)
-  o_fc : N;                   (* ForceClose commands seen at the last step *)
-  o_fc_in_period : N;         (* ForceClose commands since handle A last saw Opened/Closed *)
-  o_ok : bool
-}.
+Definition periods_mono (l : list notif) : bool :=
+  (fix go (l : list notif) (last : N) : bool :=
+     match l with [] => true | n :: t => (last <=? n_per n) && go t (n_per n) end) l 0.
+
+Definition modes : list bool := [true; false].
+
+(* what x sent and y received: per period and mode a prefix; sizes within both maxima *)
+Definition fifo_ok (c : cfg) (x : bool) (nper : N) (acc del : list notif) : bool :=
+  forallb (fun k => forallb (fun m => prefix_b (proj k m del) (proj k m acc)) modes)
+          (map N.of_nat (seq 0 (S (N.to_nat nper)))) &&
+  forallb (fun n => (n_per n <=? nper) && Bool.eqb (n_from n) x) del &&
+  forallb (fun n => (n_len n <=? c_max (cfA c)) && (n_len n <=? c_max (cfB c))) del &&
+  periods_mono del.
 
 Fixpoint nth_notif (i : nat) (l : list notif) : option notif :=
   match l, i with
@@ -152,8 +172,6 @@ Fixpoint nth_notif (i : nat) (l : list notif) : option notif :=
   | _ :: t, S j => nth_notif j t
   end.
 
-(* async futures complete in FIFO order: the completed ones are the first (ok+err) issued; a
-   future that completed Ok between two dumps is appended to the accepted list *)
 Fixpoint take_async (k : nat) (from : nat) (issued : list notif) : list notif :=
   match k with
   | O => []
@@ -163,99 +181,353 @@ Fixpoint take_async (k : nat) (from : nat) (issued : list notif) : list notif :=
             end
   end.
 
-Definition periods_mono (l : list notif) : bool :=
-  (fix go (l : list notif) (last : N) : bool :=
-     match l with [] => true | n :: t => (last <=? n_per n) && go t (n_per n) end) l 0.
+(* ---- the oracle of the quiescence stream ---- *)
+Record ost := mkO {
+  o_sink : option N;          (* period of the sink held by handle A *)
+  o_acc : list notif;         (* notifications whose send returned Ok *)
+  o_issued : list notif;      (* async sends whose future was created, FIFO *)
+  o_done : N;                 (* async futures completed so far (ok + err) *)
+  o_del : list notif;         (* delivered to user B *)
+  o_cur : option N;           (* stream that user B was told is open *)
+  o_fc : N;                   (* ForceClose commands seen at the last step *)
+  o_fc_in_period : N;         (* ForceClose commands since handle A last saw Opened/Closed *)
+  o_ok : bool
+}.
 
-Definition modes : list bool := [true; false].
+Definition o_set_ok (o : ost) (b : bool) : ost :=
+  mkO (o_sink o) (o_acc o) (o_issued o) (o_done o) (o_del o) (o_cur o) (o_fc o) (o_fc_in_period o) (o_ok o && b).
 
-Definition fifo_ok (c : cfg) (nper : N) (acc del : list notif) : bool :=
-  forallb (fun k => forallb (fun m => prefix_b (proj k m del) (proj k m acc)) modes)
-          (map N.of_nat (seq 0 (S (N.to_nat nper)))) &&
-  forallb (fun n => n_per n <=? nper) del &&
-  forallb (fun n => (n_len n <=? max_out c) && (n_len n <=? max_in c)) del &&
-  periods_mono del.
+Definition has_sink (o : ost) : bool := match o_sink o with Some _ => true | None => false end.
 
-Definition o_step (c : cfg) (o : ost) (x : action) (r : res) (d : obs_dump) : ost :=
-  (* completions of async futures since the previous dump: errors first are impossible to tell
-     apart from oks by position, so the oracle uses the counters: newly ok futures are a
-     contiguous FIFO block only when no error completed in the same step *)
+Definition o_step (c : cfg) (p : N) (o : ost) (x : action) (r : ares) (d : obs_dump) : ost :=
   let o1 :=
     match x, r with
-    | ASendSync t l, RCode 0 =>
+    | ASendSync t l, ACode 0 =>
         match o_sink o with
-        | Some k => mkO (o_sink o) (o_acc o ++ [mkN k true t l]) (o_issued o) (o_done o) (o_del o)
+        | Some k => mkO (o_sink o) (o_acc o ++ [mkN true k true t l]) (o_issued o) (o_done o) (o_del o) (o_cur o)
                         (o_fc o) (o_fc_in_period o) (o_ok o)
-        | None => mkO (o_sink o) (o_acc o) (o_issued o) (o_done o) (o_del o) (o_fc o) (o_fc_in_period o) false
+        | None => o_set_ok o false
         end
-    | ASendSync _ _, RCode 3 =>
-        mkO (o_sink o) (o_acc o) (o_issued o) (o_done o) (o_del o) (o_fc o) (o_fc_in_period o)
-            (o_ok o && match o_sink o with None => true | Some _ => false end)
-    | ASendSync _ _, RCode z =>   (* never blocks: it returned Clogged or NoConnection *)
-        mkO (o_sink o) (o_acc o) (o_issued o) (o_done o) (o_del o) (o_fc o) (o_fc_in_period o)
-            (o_ok o && ((z =? 1) || (z =? 2)) && match o_sink o with None => false | Some _ => true end)
-    | ASendAsync t l, RCode 0 =>
+    | ASendSync _ _, ACode 3 => o_set_ok o (negb (has_sink o))
+    | ASendSync _ _, ACode z =>   (* never blocks: it returned Clogged or NoConnection *)
+        o_set_ok o (((z =? 1) || (z =? 2)) && has_sink o)
+    | ASendAsync t l, ACode 0 =>
         match o_sink o with
-        | Some k => mkO (o_sink o) (o_acc o) (o_issued o ++ [mkN k false t l]) (o_done o) (o_del o)
+        | Some k => mkO (o_sink o) (o_acc o) (o_issued o ++ [mkN true k false t l]) (o_done o) (o_del o) (o_cur o)
                         (o_fc o) (o_fc_in_period o) (o_ok o)
-        | None => mkO (o_sink o) (o_acc o) (o_issued o) (o_done o) (o_del o) (o_fc o) (o_fc_in_period o) false
+        | None => o_set_ok o false
         end
-    | ASendAsync _ _, RCode z =>
-        mkO (o_sink o) (o_acc o) (o_issued o) (o_done o) (o_del o) (o_fc o) (o_fc_in_period o)
-            (o_ok o && (z =? 3) && match o_sink o with None => true | Some _ => false end)
-    | AUserRecv, RUser (UNotif n) =>
-        mkO (o_sink o) (o_acc o) (o_issued o) (o_done o) (o_del o ++ [n]) (o_fc o) (o_fc_in_period o) (o_ok o)
-    | APollA, REvents l =>
-        let '(snk, _) := pa_events l (o_sink o) false in
-        mkO snk (o_acc o) (o_issued o) (o_done o) (o_del o) (o_fc o)
+    | ASendAsync _ _, ACode z => o_set_ok o ((z =? 3) && negb (has_sink o))
+    | AUserRecv, AUser (UNotif n) =>
+        (* a notification is reported only as part of the stream it was sent on *)
+        mkO (o_sink o) (o_acc o) (o_issued o) (o_done o) (o_del o ++ [n]) (o_cur o) (o_fc o) (o_fc_in_period o)
+            (o_ok o && match o_cur o with Some k => n_per n =? k | None => false end)
+    | AUserRecv, AUser (UOpened k) =>
+        mkO (o_sink o) (o_acc o) (o_issued o) (o_done o) (o_del o) (Some k) (o_fc o) (o_fc_in_period o)
+            (o_ok o && match o_cur o with None => true | Some _ => false end)
+    | AUserRecv, AUser UClosed =>
+        mkO (o_sink o) (o_acc o) (o_issued o) (o_done o) (o_del o) None (o_fc o) (o_fc_in_period o)
+            (o_ok o && match o_cur o with None => false | Some _ => true end)
+    | APollA, AEvents l =>
+        let snk := (fix go (l : list hev) (s : option N) := match l with
+                     | [] => s | HOpened k :: t => go t (Some k) | HClosed _ :: t => go t None end) l (o_sink o) in
+        mkO snk (o_acc o) (o_issued o) (o_done o) (o_del o) (o_cur o) (o_fc o)
             (match l with [] => o_fc_in_period o | _ => 0 end) (o_ok o)
     | _, _ => o
     end in
-  (* async completions *)
+  (* async futures complete in FIFO order; within one step the Oks come before the Errs *)
   let done' := d_ok d + d_err d in
   let newly := N.to_nat (done' - o_done o1) in
   let block := take_async newly (N.to_nat (o_done o1)) (o_issued o1) in
-  (* which of the newly completed were Ok: when the sender is alive after the step none of them
-     failed; when it died in this step the oks (if any) are the first ones *)
   let n_ok_new := N.to_nat (d_ok d - (len (filter (fun n => negb (n_sync n)) (o_acc o1)))) in
   let acc' := o_acc o1 ++ firstn n_ok_new block in
   let fc_new := d_fc d - o_fc o1 in
   let fcp := o_fc_in_period o1 + fc_new in
-  mkO (o_sink o1) acc' (o_issued o1) done' (o_del o1) (d_fc d) fcp
+  mkO (o_sink o1) acc' (o_issued o1) done' (o_del o1) (o_cur o1) (d_fc d) fcp
       (o_ok o1 &&
-       (* counters only grow, completed + waiting = issued *)
        (o_done o1 <=? done') && (o_fc o1 <=? d_fc d) &&
        (done' + d_wait d =? len (o_issued o1)) &&
        (d_ok d =? len (filter (fun n => negb (n_sync n)) acc')) &&
        (* at most one ForceClose per open period, and only as a result of a clogged sync send *)
        (fcp <=? 1) &&
-       (match x, r with ASendSync _ _, RCode 1 => true | _, _ => fc_new =? 0 end) &&
+       (match x, r with ASendSync _ _, ACode 1 => true | _, _ => fc_new =? 0 end) &&
        (* the async send waits exactly when the queue is full *)
        (if d_a d then (d_wait d =? 0) || (d_afree d =? 0) else d_wait d =? 0) &&
-       (* queue bounds *)
-       (d_sfree d <=? cap_s c) && (d_afree d <=? cap_a c) && (d_nfree d <=? cap_n c) &&
+       (* ... and fails only on a closed stream: the error count grows only if A's Connection has ended or
+          handle A still holds the sink of an earlier stream (p = streams set up so far) *)
+       ((d_err d <=? o_done o1 - len (filter (fun n => negb (n_sync n)) (o_acc o1))) || negb (d_a d) ||
+        negb (match o_sink o1 with Some k => k =? p | None => false end)) &&
+       (d_sfree d <=? c_s (cfA c)) && (d_afree d <=? c_a (cfA c)) && (d_nfree d <=? c_n (cfB c)) &&
        (d_bad d =? 0)).
 
-Fixpoint o_run (c : cfg) (o : ost) (xs : list action) (tr : list (res * obs_dump)) : ost :=
+Fixpoint o_run (c : cfg) (p : N) (o : ost) (xs : list action) (tr : list (ares * obs_dump)) : ost :=
   match xs, tr with
-  | x :: xs', (r, d) :: tr' => o_run c (o_step c o x r d) xs' tr'
+  | x :: xs', (r, d) :: tr' =>
+      let p' := match x, r with AReopen, ACode 0 => p + 1 | _, _ => p end in
+      o_run c p' (o_step c p' o x r d) xs' tr'
   | _, _ => o
   end.
 
 Definition count_reopen (xs : list action) : N :=
   len (filter (fun x => match x with AReopen => true | _ => false end) xs).
 
-Definition prop_ok (case trace : list N) : bool :=
-  match decode_case case, trace with
-  | Some (c, xs, _), 1 :: body =>
-      match pall (p_blocks xs) body with
-      | Some tr =>
-          let o := o_run c (mkO None [] [] 0 [] 0 0 true) xs tr in
-          o_ok o && fifo_ok c (count_reopen xs) (o_acc o) (o_del o)
-      | None => false
+(* ================================================================== scheduler stream *)
+Definition p_step : parser step :=
+  let* tag := pN in
+  match tag with
+  | 0 => let* x := pBool in let* t := pN in let* l := pN in pret (SSync x t l)
+  | 1 => let* x := pBool in let* i := pN in let* t := pN in let* l := pN in pret (SAsyncStart x i t l)
+  | 2 => let* x := pBool in let* i := pN in pret (SAsyncPoll x i)
+  | 3 => let* x := pBool in let* i := pN in pret (SAsyncDrop x i)
+  | 4 => let* x := pBool in let* b := pN in pret (SConn x b)
+  | 5 => let* x := pBool in let* b := pN in pret (SHandle x b)
+  | 6 => let* x := pBool in pret (SOpen x)
+  | 7 => let* x := pBool in pret (SClose x)
+  | 8 => let* x := pBool in pret (SCmd x)
+  | 9 => let* x := pBool in let* w := pBool in let* r := pBool in pret (SGate x w r)
+  | 10 => pret SKill
+  | 11 => let* x := pBool in pret (SCmdFail x)
+  | _ => pfail
+  end.
+
+Definition p_ecfg : parser ecfg :=
+  let* a := pN in let* b := pN in let* c := pN in let* d := pN in let* e := pN in pret (mkEC a b c d e).
+
+Definition wf_step (t : step) : bool :=
+  match t with
+  | SSync _ t l | SAsyncStart _ _ t l => wf_size t l
+  | SHandle _ b => b <=? 128
+  | SConn _ b => (b <=? 128) || (b =? BIG)
+  | _ => true
+  end.
+
+Definition decode_sched (l : list N) : option (cfg * list step * list (list bool)) :=
+  match l with
+  | m :: rest =>
+      if m =? SCHED_MARK then
+        match pall (let* a := p_ecfg in let* b := p_ecfg in let* ts := plist p_step in
+                    let* hs := plist (plist pBool) in pret (mkCfg a b, ts, hs)) rest with
+        | Some (c, ts, hs) =>
+            if wf_ecfg (cfA c) && wf_ecfg (cfB c) && forallb wf_step ts then Some (c, ts, hs) else None
+        | None => None
+        end
+      else None
+  | [] => None
+  end.
+
+Definition enc_uev (e : uev) : list N :=
+  match e with
+  | UPending => [0]
+  | UOpened k => [1; k]
+  | UClosed => [2]
+  | UNotif n => [3; b2n (n_from n); n_per n; b2n (n_sync n); n_tag n; n_len n]
+  end.
+Definition enc_res (r : res) : list N := match r with RCode v => [v] | RUser e => enc_uev e end.
+
+Definition sdump (c : cfg) (s : st) : list N :=
+  [ b2n (e_alive (ec (sA s))); b2n (e_alive (ec (sB s)));
+    sfree c s true; afree_d c s true; sfree c s false; afree_d c s false;
+    nfree c s true; nfree c s false; len (carrier (lAB s)); len (carrier (lBA s));
+    e_cmds (eh (sA s)); e_cmds (eh (sB s)); nyes s; bad s ].
+
+Fixpoint srun_trace (c : cfg) (s : st) (ts : list step) : list N :=
+  match ts with
+  | [] => []
+  | t :: r => let '(s1, v) := do_step c s t in enc_res v ++ sdump c s1 ++ srun_trace c s1 r
+  end.
+
+Definition run_case (l : list N) : list N :=
+  match decode_sched l with
+  | Some (c, ts, hs) => 2 :: srun_trace c (init hs) ts
+  | None =>
+      match decode_case l with
+      | Some (c, xs, hs) => 1 :: arun_trace c 0 (init hs) xs
+      | None => [0]
       end
-  | None, [0] => true
-  | _, _ => false
+  end.
+
+(* ---- decoding a scheduler trace ---- *)
+Record sdump_t := mkSD {
+  sd_alive : bool -> bool; sd_sfree : bool -> N; sd_afree : bool -> N; sd_nfree : bool -> N;
+  sd_car : bool -> N; sd_cmds : bool -> N; sd_yes : N; sd_bad : N
+}.
+Definition p_sdump : parser sdump_t :=
+  let* aa := pBool in let* ab := pBool in let* sa := pN in let* aa' := pN in let* sb := pN in let* ab' := pN in
+  let* na := pN in let* nb := pN in let* ca := pN in let* cb := pN in let* ma := pN in let* mb := pN in
+  let* y := pN in let* bd := pN in
+  pret (mkSD (fun x => if x then aa else ab) (fun x => if x then sa else sb) (fun x => if x then aa' else ab')
+             (fun x => if x then na else nb) (fun x => if x then ca else cb) (fun x => if x then ma else mb) y bd).
+
+Definition p_uev : parser uev :=
+  let* t := pN in
+  match t with
+  | 0 => pret UPending
+  | 1 => let* k := pN in pret (UOpened k)
+  | 2 => pret UClosed
+  | 3 => let* f := pBool in let* p := pN in let* m := pBool in let* tg := pN in let* l := pN in
+         pret (UNotif (mkN f p m tg l))
+  | _ => pfail
+  end.
+
+Definition p_res (t : step) : parser res :=
+  match t with
+  | SHandle _ _ => let* e := p_uev in pret (RUser e)
+  | _ => let* v := pN in pret (RCode v)
+  end.
+
+Fixpoint p_sblocks (ts : list step) : parser (list (res * sdump_t)) :=
+  match ts with
+  | [] => pret []
+  | t :: r => let* v := p_res t in let* d := p_sdump in let* rest := p_sblocks r in pret ((v, d) :: rest)
+  end.
+
+(* what the user of one endpoint can know *)
+Record uview := mkU {
+  u_sink : option N;              (* stream its handle considers open *)
+  u_acc : list notif;             (* its sends that returned Ok *)
+  u_pend : list (N * notif);      (* its pending send_async futures *)
+  u_del : list notif;             (* what it received *)
+  u_maxper : N;                   (* largest period it was told about *)
+  u_cmds : N; u_fcp : N           (* command channel at the last step; ForceClose since Opened/Closed *)
+}.
+(* so_per: streams set up so far; so_cpa / so_cpb: stream of the current (or last) Connection of A / B *)
+Record sost := mkSO { so_a : uview; so_b : uview; so_ok : bool; so_per : N; so_cpa : N; so_cpb : N }.
+Definition so_cp (o : sost) (x : bool) : N := if x then so_cpa o else so_cpb o.
+Definition uv (o : sost) (x : bool) : uview := if x then so_a o else so_b o.
+Definition set_uv (o : sost) (x : bool) (u : uview) (ok : bool) : sost :=
+  if x then mkSO u (so_b o) (so_ok o && ok) (so_per o) (so_cpa o) (so_cpb o)
+  else mkSO (so_a o) u (so_ok o && ok) (so_per o) (so_cpa o) (so_cpb o).
+
+Fixpoint find_p (id : N) (l : list (N * notif)) : option notif :=
+  match l with [] => None | (i, n) :: t => if i =? id then Some n else find_p id t end.
+Fixpoint remove_p (id : N) (l : list (N * notif)) : list (N * notif) :=
+  match l with [] => [] | (i, n) :: t => if i =? id then t else (i, n) :: remove_p id t end.
+
+Definition u_has (u : uview) : bool := match u_sink u with Some _ => true | None => false end.
+
+Definition so_step (c : cfg) (o : sost) (t : step) (v : res) (d : sdump_t) : sost :=
+  let o1 :=
+    match t, v with
+    | SSync x tg l, RCode z =>
+        let u := uv o x in
+        match u_sink u, z with
+        | Some k, 0 => set_uv o x (mkU (u_sink u) (u_acc u ++ [mkN x k true tg l]) (u_pend u) (u_del u) (u_maxper u)
+                                       (u_cmds u) (u_fcp u)) true
+        | Some _, 1 | Some _, 2 => o
+        | None, 3 => o
+        | _, _ => set_uv o x u false
+        end
+    | SAsyncStart x id tg l, RCode z =>
+        let u := uv o x in
+        match find_p id (u_pend u), u_sink u, z with
+        | Some _, _, 5 => o
+        | None, Some k, 0 => set_uv o x (mkU (u_sink u) (u_acc u ++ [mkN x k false tg l]) (u_pend u) (u_del u)
+                                             (u_maxper u) (u_cmds u) (u_fcp u)) true
+        | None, Some k, 4 =>
+            (* it waits only when its queue has no free slot *)
+            set_uv o x (mkU (u_sink u) (u_acc u) (u_pend u ++ [(id, mkN x k false tg l)]) (u_del u)
+                            (u_maxper u) (u_cmds u) (u_fcp u)) (sd_alive d x && (sd_afree d x =? 0))
+        | None, Some k, 2 =>   (* it fails only on a closed stream (or through the sink of an earlier stream) *)
+            set_uv o x u (negb (sd_alive d x) || negb (k =? so_cp o x))
+        | None, None, 3 => o
+        | _, _, _ => set_uv o x u false
+        end
+    | SAsyncPoll x id, RCode z =>
+        let u := uv o x in
+        match find_p id (u_pend u), z with
+        | None, 5 => o
+        | Some n, 0 => set_uv o x (mkU (u_sink u) (u_acc u ++ [n]) (remove_p id (u_pend u)) (u_del u) (u_maxper u)
+                                       (u_cmds u) (u_fcp u)) true
+        | Some _, 2 => set_uv o x (mkU (u_sink u) (u_acc u) (remove_p id (u_pend u)) (u_del u) (u_maxper u)
+                                       (u_cmds u) (u_fcp u)) true
+        | Some _, 4 => o
+        | _, _ => set_uv o x u false
+        end
+    | SAsyncDrop x id, RCode z =>
+        let u := uv o x in
+        match find_p id (u_pend u), z with
+        | None, 5 => o
+        | Some _, 0 => set_uv o x (mkU (u_sink u) (u_acc u) (remove_p id (u_pend u)) (u_del u) (u_maxper u)
+                                       (u_cmds u) (u_fcp u)) true
+        | _, _ => set_uv o x u false
+        end
+    | SHandle x _, RUser (UOpened k) =>
+        let u := uv o x in
+        (* exactly one Closed between two Opened, periods increase *)
+        set_uv o x (mkU (Some k) (u_acc u) (u_pend u) (u_del u) k (u_cmds u) 0)
+               (negb (u_has u) && (u_maxper u <? k))
+    | SHandle x _, RUser UClosed =>
+        let u := uv o x in
+        set_uv o x (mkU None (u_acc u) (u_pend u) (u_del u) (u_maxper u) (u_cmds u) 0) (u_has u)
+    | SHandle x _, RUser (UNotif n) =>
+        let u := uv o x in
+        (* reported only as part of the stream it was sent on, and it comes from the peer *)
+        set_uv o x (mkU (u_sink u) (u_acc u) (u_pend u) (u_del u ++ [n]) (u_maxper u) (u_cmds u) (u_fcp u))
+               (match u_sink u with Some k => n_per n =? k | None => false end && Bool.eqb (n_from n) (negb x))
+    | _, _ => o
+    end in
+  let upd := fun (o : sost) (x : bool) =>
+    let u := uv o x in
+    let grew := sd_cmds d x - u_cmds u in
+    let fcp := u_fcp u + grew in
+    set_uv o x (mkU (u_sink u) (u_acc u) (u_pend u) (u_del u) (u_maxper u) (sd_cmds d x) fcp)
+           ((fcp <=? 1) &&
+            (* ForceClose is queued only by a clogged sync send of that user *)
+            (match t, v with
+             | SSync y _ _, RCode 1 => if Bool.eqb x y then true else grew =? 0
+             | _, _ => grew =? 0 end) &&
+            (sd_sfree d x <=? c_s (ecf c x)) && (sd_afree d x <=? c_a (ecf c x)) &&
+            (sd_nfree d x <=? c_n (ecf c x)) && (sd_cmds d x <=? c_c (ecf c x))) in
+  let o2 := upd (upd o1 true) false in
+  (* the protocol sets up streams the way open_stream does *)
+  let '(per', cpa', cpb') :=
+    match t, v with
+    | SOpen x, RCode 0 =>
+        if so_cp o x <? so_per o
+        then (so_per o, (if x then so_per o else so_cpa o), (if x then so_cpb o else so_per o))
+        else (so_per o + 1, (if x then so_per o + 1 else so_cpa o), (if x then so_cpb o else so_per o + 1))
+    | _, _ => (so_per o, so_cpa o, so_cpb o)
+    end in
+  mkSO (so_a o2) (so_b o2) (so_ok o2 && (sd_bad d =? 0)) per' cpa' cpb'.
+
+Fixpoint so_run (c : cfg) (o : sost) (ts : list step) (tr : list (res * sdump_t)) : sost :=
+  match ts, tr with
+  | t :: ts', (v, d) :: tr' => so_run c (so_step c o t v d) ts' tr'
+  | _, _ => o
+  end.
+
+Definition count_open (ts : list step) : N :=
+  len (filter (fun t => match t with SOpen _ => true | _ => false end) ts).
+
+Definition empty_u : uview := mkU None [] [] [] 0 0 0.
+
+Definition prop_ok (case trace : list N) : bool :=
+  match decode_sched case with
+  | Some (c, ts, _) =>
+      match trace with
+      | 2 :: body =>
+          match pall (p_sblocks ts) body with
+          | Some tr =>
+              let o := so_run c (mkSO empty_u empty_u true 0 0 0) ts tr in
+              so_ok o &&
+              fifo_ok c true (count_open ts) (u_acc (so_a o)) (u_del (so_b o)) &&
+              fifo_ok c false (count_open ts) (u_acc (so_b o)) (u_del (so_a o))
+          | None => false
+          end
+      | _ => false
+      end
+  | None =>
+      match decode_case case, trace with
+      | Some (c, xs, _), 1 :: body =>
+          match pall (p_blocks xs) body with
+          | Some tr =>
+              let o := o_run c 0 (mkO None [] [] 0 [] None 0 0 true) xs tr in
+              o_ok o && fifo_ok c true (count_reopen xs) (o_acc o) (o_del o)
+          | None => false
+          end
+      | None, [0] => true
+      | _, _ => false
+      end
   end.
 
 (* No known-finding classes for C12. *)
